@@ -141,6 +141,9 @@ func (cs *checkState) run() int {
 					agg.add(t.spec.Flavour, e)
 					if e.Class != "" {
 						viols = append(viols, violation{Flavour: t.spec.Flavour, Run: e.Run, Seed: e.Seed, Class: e.Class, Message: e.Message, Sig: e.Signature, Config: e.Config, Choices: e.Choices})
+						for _, m := range e.More {
+							viols = append(viols, violation{Flavour: t.spec.Flavour, Run: e.Run, Seed: e.Seed, Class: m.Class, Message: m.Message, Sig: m.Signature, Config: e.Config, Choices: e.Choices})
+						}
 					}
 				}
 				for _, d := range r.deaths {
@@ -312,7 +315,7 @@ func (cs *checkState) confirmAndWrite(v violation, deadline time.Time) (path str
 	}
 	// the replay must reproduce the same class, twice
 	for i := 0; i < 2; i++ {
-		got, note := replayClass(bin, path, v.Flavour)
+		got, note := replayClassWant(bin, path, v.Flavour, v.Class)
 		if got != v.Class {
 			os.Remove(path)
 			return "", false, fmt.Sprintf("replay %d gave %q (%s)", i+1, got, firstLines(note, 5))
@@ -325,7 +328,7 @@ func (cs *checkState) confirmAndWrite(v violation, deadline time.Time) (path str
 		if err := writeReplay(path, min); err != nil {
 			return "", false, err.Error()
 		}
-		if got, _ := replayClass(bin, path, v.Flavour); got != v.Class {
+		if got, _ := replayClassWant(bin, path, v.Flavour, v.Class); got != v.Class {
 			// keep the unminimised one
 			writeReplay(path, &rf)
 		}
@@ -344,6 +347,12 @@ func writeReplay(path string, rf *proto.ReplayFile) error {
 // replayClass runs a replay file in a fresh child and returns the violation class it ends with
 // ("" if the run is clean, "diverged" if the schedule could not be followed).
 func replayClass(bin, path, flavour string) (class, note string) {
+	return replayClassWant(bin, path, flavour, "")
+}
+
+// replayClassWant is replayClass for runs that may end with several violations: if one of them has the
+// class want, that one is returned.
+func replayClassWant(bin, path, flavour, want string) (class, note string) {
 	r := runChild(bin, proto.Spec{Replay: path, Flavour: flavour}, 10*time.Minute)
 	switch {
 	case r.trouble != "":
@@ -354,6 +363,11 @@ func replayClass(bin, path, flavour string) (class, note string) {
 		e := r.ends[0]
 		if e.Diverged != "" {
 			return "diverged", e.Diverged
+		}
+		for _, m := range e.More {
+			if m.Class == want {
+				return m.Class, m.Message
+			}
 		}
 		return e.Class, e.Message
 	}
@@ -376,7 +390,7 @@ func replayCmd(path string) int {
 		fmt.Fprintln(os.Stderr, err)
 		return 2
 	}
-	class, note := replayClass(bin, path, rf.Flavour)
+	class, note := replayClassWant(bin, path, rf.Flavour, rf.Class)
 	fmt.Printf("verif: replay of %s: recorded class %q, this run %q\n", path, rf.Class, class)
 	switch {
 	case class == rf.Class:
